@@ -1254,6 +1254,54 @@ def writes_prompt(run):
     return True
 
 
+
+def stalled_ping_timeout(run, an):
+    """Finding F23 (only looked for when time passes while a write or flush is pending): the ping
+    timeout is measured from the start of the service pass that wrote the PINGREQ, not from the moment
+    the PINGREQ had left — after a stalled write the connection is declared dead less than the
+    round-trip bound after the PINGREQ. Reported only when the timeout is exactly what the code
+    computes (start of that pass + 5 s); anything else is left to the prompt-transport rules."""
+    out = []
+    clock = 0
+    times = {}
+    for st in run.steps:
+        if st.op == "tick" and len(st.tok) == 2 and st.tok[1].isdigit() and "bad-op" not in st.events:
+            clock += int(st.tok[1])
+        times[st.idx] = clock
+    for t, n in enumerate(an.nets):
+        for p in [q for q in n["client"] if q["type"] == "PINGREQ"]:
+            tp = p["flush_time"]
+            if tp is None:
+                continue
+            if any(q["type"] == "PINGRESP" and q["when"] > p["when"] for q in n["server"]):
+                continue
+            # the step in which this PINGREQ's first byte was accepted, then back over the steps in
+            # which the same write was only pending
+            first = None
+            for (si, ei, pos, ln) in run.nets[t]["writes"]:
+                if pos <= p["start"] < pos + ln:
+                    first = si
+                    break
+            if first is None:
+                continue
+            s0 = first
+            while s0 > 0 and any(e == f"wp {t}" for e in run.steps[s0 - 1].events) and not any(e.startswith(f"w {t} ") for e in run.steps[s0 - 1].events):
+                s0 -= 1
+            if not any(e == f"wp {t}" for e in run.steps[s0].events) and s0 == first:
+                continue
+            ts = times[s0 - 1] if run.steps[s0].op == "tick" and s0 > 0 else times[s0]
+            for st in run.steps[p["when"][0]:]:
+                if st.net_after != t:
+                    break
+                for e in st.events:
+                    m = re.match(r"ret (poll|recv|drive) err Disconnected @(\d+)", e)
+                    if m and not any(ev.startswith(("rz ", "re ", "we ", "fe ", "wz ")) for ev in st.events) and not consumed_disconnect(an, t, st.idx):
+                        tm = int(m.group(2))
+                        if ts + 5000000 <= tm < tp + 5000000 and ts < tp:
+                            out.append(V("C10", "early-timeout", f"PINGREQ written from {ts} µs (write stalled), completed at {tp} µs, Disconnected at {tm} µs: {tm - tp} µs after it left", step=st.idx, finding="F23"))
+                        return out
+    return out
+
 def c10(run, an=None):
     """Checked on runs where the application stays inside poll/recv, every tick is followed by `go`
     and no time passes while a write is pending (the generator tags them family=keepalive);
@@ -1261,7 +1309,7 @@ def c10(run, an=None):
     an = an or Analysis(run)
     out = []
     if not writes_prompt(run):
-        return out
+        return stalled_ping_timeout(run, an)
     strict = run.tags.get("family") == "keepalive"
     for t, n in enumerate(an.nets):
         ack = an.connack(t)
